@@ -116,6 +116,13 @@ impl Scenario for C18 {
 
     fn execute(&self, cfg: &Cfg, acts: &[Act], st: &mut RunStats) -> Result<(), Violation> {
         st.shape_seq(crate::rng::fnv1a(cfg.fam.as_bytes()) % 991);
+        st.shape_seq(cfg.a.min(64));
+        for a in acts {
+            st.shape_seq(match a {
+                Act::Stream { kind, len, .. } => 10 * (*kind as u64 + 1) + (32 - len.leading_zeros()) as u64 / 4,
+                Act::Trim => 99,
+            });
+        }
         let mut offered: u64 = 0;
         let mut next_pow2: u64 = 1;
         let mut const_len: Option<usize> = None;
